@@ -48,6 +48,7 @@ func Run(cfg core.Config, scope core.Scope) *core.Result {
 	res := core.NewResult("GOPROTO")
 	res.Rules = append(res.Rules,
 		"GOPROTO.capture: a variable of the spawning function that a goroutine assigns is written under a mutex that also covers every other concurrent access, or by a single goroutine whose completion (WaitGroup) every other access waits for",
+		"GOPROTO.scratch: a buffer allocated with make in the spawning function is not written (handed whole to a call, used as copy destination, or stored at an index that does not depend on the goroutine) by a goroutine that is started more than once, unless under a lock",
 		"GOPROTO.wg: every WaitGroup Add is matched by goroutines that defer Done, with a count equal to the spawning loop's trip count, and Wait is reached",
 		"GOPROTO.close: every channel that is ranged over or used as a quit signal is closed by exactly one site that is reached on all exits of its function",
 		"GOPROTO.sibling: the serial and concurrent implementations dispatched from one call site read the same settings parameters")
@@ -72,6 +73,7 @@ func Run(cfg core.Config, scope core.Scope) *core.Result {
 					res.Count("spawning_functions", 1)
 					res.Count("go_statements", len(c.gos))
 					c.capture()
+					c.scratch()
 					c.waitGroups()
 					c.channels()
 					res.Sample(map[string]any{"rule": "GOPROTO", "func": c.name, "go_statements": len(c.gos)})
@@ -395,6 +397,225 @@ func (c *fnCtx) capture() {
 }
 
 // stmtOf returns the innermost statement containing n.
+// scratch implements GOPROTO.scratch: every worker needs its own scratch
+// buffer. A slice that the spawning function allocates with make and that a
+// goroutine started in a loop then hands whole to a callee, fills with copy
+// or stores to at a goroutine-independent index is shared by all workers.
+func (c *fnCtx) scratch() {
+	// slices allocated with make at the level of the spawning function
+	made := map[types.Object]ast.Node{}
+	ast.Inspect(c.fd.Body, func(n ast.Node) bool {
+		as, ok := n.(*ast.AssignStmt)
+		if !ok || len(as.Lhs) != len(as.Rhs) {
+			return true
+		}
+		for i, r := range as.Rhs {
+			call, ok := r.(*ast.CallExpr)
+			if !ok {
+				continue
+			}
+			if id, ok := call.Fun.(*ast.Ident); !ok || id.Name != "make" {
+				continue
+			}
+			if lid, ok := as.Lhs[i].(*ast.Ident); ok {
+				if o := core.ObjOf(c.info, lid); o != nil {
+					if _, isSlice := o.Type().Underlying().(*types.Slice); isSlice {
+						made[o] = as
+					}
+				}
+			}
+		}
+		return true
+	})
+	if len(made) == 0 {
+		return
+	}
+	for _, g := range c.gos {
+		if !g.inLoop || g.lit == nil {
+			continue
+		}
+		// objects local to the goroutine (its parameters and everything it declares)
+		local := map[types.Object]bool{}
+		ast.Inspect(g.lit, func(n ast.Node) bool {
+			if id, ok := n.(*ast.Ident); ok {
+				if o := c.info.Defs[id]; o != nil {
+					local[o] = true
+				}
+			}
+			return true
+		})
+		// variables of the spawning loop are per goroutine too (Go 1.22 semantics or passed explicitly)
+		for p := c.par[g.stmt]; p != nil; p = c.par[p] {
+			switch l := p.(type) {
+			case *ast.ForStmt:
+				if l.Init != nil {
+					ast.Inspect(l.Init, func(n ast.Node) bool {
+						if id, ok := n.(*ast.Ident); ok {
+							if o := c.info.Defs[id]; o != nil {
+								local[o] = true
+							}
+						}
+						return true
+					})
+				}
+			case *ast.RangeStmt:
+				for _, e := range []ast.Expr{l.Key, l.Value} {
+					if id, ok := e.(*ast.Ident); ok {
+						if o := c.info.Defs[id]; o != nil {
+							local[o] = true
+						}
+					}
+				}
+			}
+		}
+		shared := func(e ast.Expr) (types.Object, bool) {
+			id, ok := ast.Unparen(e).(*ast.Ident)
+			if !ok {
+				return nil, false
+			}
+			o := core.ObjOf(c.info, id)
+			def, ok := made[o]
+			if !ok || local[o] || within(def, g.lit) {
+				return nil, false
+			}
+			return o, true
+		}
+		dependsOnLocal := func(e ast.Expr) bool {
+			dep := false
+			ast.Inspect(e, func(n ast.Node) bool {
+				if id, ok := n.(*ast.Ident); ok && local[core.ObjOf(c.info, id)] {
+					dep = true
+				}
+				return !dep
+			})
+			return dep
+		}
+		report := func(o types.Object, n ast.Node, how string) {
+			if _, locked := c.lockRegion(n, g.lit); locked {
+				return
+			}
+			c.res.Add(core.Finding{Rule: "GOPROTO.scratch", Key: fmt.Sprintf("GOPROTO.scratch|%s|%s", c.name, o.Name()), Pos: core.Pos(n.Pos()), Func: c.name,
+				Msg: fmt.Sprintf("%s is allocated once by the spawning function (%s) but %s by a goroutine that is started in a loop: every worker writes the same buffer", o.Name(), core.Pos(made[o].Pos()), how)})
+		}
+		ast.Inspect(g.lit.Body, func(n ast.Node) bool {
+			switch x := n.(type) {
+			case *ast.CallExpr:
+				fname := ""
+				if id, ok := x.Fun.(*ast.Ident); ok {
+					fname = id.Name
+				}
+				switch fname {
+				case "len", "cap":
+					return true
+				case "copy":
+					if len(x.Args) == 2 {
+						if o, ok := shared(x.Args[0]); ok {
+							c.res.Obligations++
+							report(o, x, "is the destination of copy")
+						}
+					}
+					return true
+				}
+				for _, a := range x.Args {
+					if o, ok := shared(a); ok {
+						c.res.Obligations++
+						c.res.Count("made_buffers_handed_to_calls_in_looped_goroutines", 1)
+						// read-only use cannot be told from a write here: a
+						// callee in the same package that never stores through
+						// the parameter is accepted
+						if c.calleeWrites(x, a) {
+							report(o, x, fmt.Sprintf("is handed whole to %s, which writes it", types.ExprString(x.Fun)))
+						}
+					}
+				}
+			case *ast.AssignStmt:
+				for _, l := range x.Lhs {
+					if ix, ok := l.(*ast.IndexExpr); ok {
+						if o, ok := shared(ix.X); ok {
+							c.res.Obligations++
+							c.res.Count("made_buffer_element_stores_in_looped_goroutines", 1)
+							if !dependsOnLocal(ix.Index) {
+								report(o, x, fmt.Sprintf("is stored to at the goroutine-independent index %s", types.ExprString(ix.Index)))
+							}
+						}
+					}
+				}
+			}
+			return true
+		})
+	}
+}
+
+// calleeWrites reports whether the callee of call may store through the
+// parameter that receives arg: for a function or closure whose body is
+// available in this package the body is inspected (an element store, a copy
+// destination or a hand-over to another call); anything else is assumed to
+// write.
+func (c *fnCtx) calleeWrites(call *ast.CallExpr, arg ast.Expr) bool {
+	idx := -1
+	for i, a := range call.Args {
+		if a == arg {
+			idx = i
+		}
+	}
+	var ftype *ast.FuncType
+	var body *ast.BlockStmt
+	switch f := call.Fun.(type) {
+	case *ast.Ident:
+		o := core.ObjOf(c.info, f)
+		if lit, ok := c.lits[o]; ok {
+			ftype, body = lit.Type, lit.Body
+		} else if fn, ok := o.(*types.Func); ok {
+			if fd := c.declOf(fn); fd != nil {
+				ftype, body = fd.Type, fd.Body
+			}
+		}
+	}
+	if body == nil || idx < 0 {
+		return true
+	}
+	var param types.Object
+	k := 0
+	for _, fl := range ftype.Params.List {
+		for _, n := range fl.Names {
+			if k == idx {
+				param = c.info.Defs[n]
+			}
+			k++
+		}
+	}
+	if param == nil {
+		return true
+	}
+	writes := false
+	ast.Inspect(body, func(n ast.Node) bool {
+		switch x := n.(type) {
+		case *ast.AssignStmt:
+			for _, l := range x.Lhs {
+				if ix, ok := l.(*ast.IndexExpr); ok {
+					if id, ok := ix.X.(*ast.Ident); ok && core.ObjOf(c.info, id) == param {
+						writes = true
+					}
+				}
+			}
+		case *ast.CallExpr:
+			if id, ok := x.Fun.(*ast.Ident); ok && (id.Name == "len" || id.Name == "cap") {
+				return true
+			}
+			for i, a := range x.Args {
+				if id, ok := ast.Unparen(a).(*ast.Ident); ok && core.ObjOf(c.info, id) == param {
+					if fid, ok := x.Fun.(*ast.Ident); ok && fid.Name == "copy" && i == 1 {
+						continue // copy source
+					}
+					writes = true
+				}
+			}
+		}
+		return !writes
+	})
+	return writes
+}
+
 func (c *fnCtx) stmtOf(n ast.Node) ast.Node {
 	for p := n; p != nil; p = c.par[p] {
 		if _, ok := p.(ast.Stmt); ok {
